@@ -158,6 +158,22 @@ check("C20", "model_checking",
       "TLA+ refinement model checking (TLC) + TLC trace validation of renderer traces + TLC exact-geometry judging",
       "DESIGN.md §5 C20")
 
+check("C05", "model_checking",
+      "Transforms.tla gives the exact rational semantics (integer matrix / denominator / offset on a lattice of 1/8 units, "
+      "length factor k) of 13 transform atoms - integer and half translations, Scale 2, 1/2, 3, a mirroring VecScale, axis "
+      "permutation, shear, determinant-2 and non-orthogonal determinant-1 matrices, quarter and half turns - and TLC "
+      "enumerates every chain (JoinedTransform) of <= 2 (thorough 3) atoms in every order. Each chain is built with the "
+      "real transforms; TLC (TransformJudge) requires Apply = exact image on 150 lattice points, Inverse o Apply = Apply o "
+      "Inverse = id, ApplyBounds encloses the image of every lattice point of the box, ApplyDistance^2 = squared image "
+      "distance, and for TransformSolid / TransformSDF / TransformMetaball / TransformCollider around a box: membership of "
+      "image points, SDF = k * original (squared, cross-multiplied), unchanged metaball field, ray hits of the image ray at "
+      "the original ray parameters (count with / without callback, FirstRayCollision = min) with unit normals equal to the "
+      "image of the original normals, ball queries with radius k*r.",
+      "Trusted: TLC, projection of coordinates to the 1/8 lattice with exactness flags. 3-D package only (model2d's "
+      "transform.go is generated from the same template; MarchingCubesConj is exercised by the C01/C02 checks); rotations "
+      "by general angles, general real matrices and toolbox3d's squeezes/pinches are not covered.",
+      "TLA+ exact-semantics spec; TLC-generated chains replayed into the real code and judged by TLC", "DESIGN.md §5 C05")
+
 _pending = "check not built yet in this session (planned, see DESIGN.md §10)"
 for pid in ["C01","C02","C03","C04","C05","C06","C07","C08","C10","C11","C12","C13","C14","C15","C16","C17","C18","C20"]:
     if pid not in CHECKS:
